@@ -198,6 +198,27 @@ def attach_generators():
 
     contracts.attach(P, "get_rand_vars", post=post_vars)
 
+    def post_blocker(snap, a, k, res, exc):
+        # the other public way to ask for a set of variables with exclusions: as the text 'c1 v1 + c2 v2 + ...'
+        # (also the helper behind both move-around-blockers generators, whose calls are decided here too)
+        rec = core.REC
+        num = a[0] if a else k.get("num_blockers", 1)
+        excl = (a[1] if len(a) > 1 else k.get("exclude_vars")) or []
+        if exc is not None or not isinstance(res, str) or not isinstance(num, int):
+            return          # refusals: see get_rand_vars
+        rec.ev()
+        rec.arm("helper:get_blocker")
+        letters = [ch for ch in res if ch.isalpha()]
+        terms = res.split(" + ")
+        if len(terms) != num or len(letters) != num or len(set(letters)) != num or any(v in excl for v in letters):
+            rec.violation("C17", "helper/get_blocker/set", "requested variables are not distinct / not as many as requested / excluded",
+                          {"num_vars": num, "exclude": list(excl), "seed": STATE["seed"], "blocker": True,
+                           "summary": f"get_blocker({num}, exclude={list(excl)}) = {res!r} (seed {STATE['seed']})"})
+        else:
+            rec.nontrivial(("blocker", num, tuple(excl), STATE["seed"]))
+
+    contracts.attach(P, "get_blocker", post=post_blocker)
+
     def post_split(snap, a, k, res, exc):
         rec = core.REC
         if _nested():
@@ -482,6 +503,11 @@ def run(rec, cfg):
                         rec.arm("helper:get_rand_vars:result-consumed")
                     except Exception:
                         pass
+            for num in (1, 2, 3, rng.randint(2, 8)):
+                try:
+                    P.get_blocker(num, excl if rng.random() < 0.7 else None)
+                except Exception:
+                    pass
             P.split_in_two_random(rng.randint(0, 40))
             try:
                 t = P.get_rand_term_templates(rng.randint(1, 6), exponent_probability=rng.choice([0, 0.5, 1.0]), common_variables=rng.random() < 0.3)
@@ -539,3 +565,16 @@ def replay(rec, cfg, w):
             _GEN_DEPTH[0] -= 1
             STATE["hostile"] = False
             P.use_pretty_numbers(True)
+    elif "num_vars" in w:
+        # helper witnesses: the draw that failed was somewhere inside a longer sequence, so the same request is
+        # made again under a few hundred seeds
+        for sd in range(300):
+            random.seed((w.get("seed") or 0) + sd)
+            STATE["seed"] = (w.get("seed") or 0) + sd
+            try:
+                if w.get("blocker"):
+                    P.get_blocker(w["num_vars"], list(w.get("exclude") or []))
+                else:
+                    P.get_rand_vars(w["num_vars"], list(w.get("exclude") or []))
+            except Exception:
+                pass
